@@ -164,9 +164,22 @@ def run_case(ctx, case):
     segments = [s for s in harness.apply_cuts(stream, case["cuts"]) if s]
 
     class Transport(StringTransport):
+        """StringTransport that behaves like a real one after loseConnection(): the (always
+        empty) write buffer is flushed, the socket closes, later writes go nowhere."""
+        dropped = 0
+
         def unregisterProducer(self):            # a real transport does not mind
             self.producer = None
             self.streaming = None
+
+        def write(self, data):
+            if self.disconnecting:
+                self.dropped += len(data)
+                return
+            StringTransport.write(self, data)
+
+        def writeSequence(self, seq):
+            self.write(b"".join(seq))
 
     w = _World()
     w.handed = []          # Request objects in hand-over order
@@ -295,6 +308,17 @@ def run_case(ctx, case):
             if r["results"] and w.finished[k] and r["results"][0] is not None:
                 V("notifyfinish-failed-although-finished", f"request {k}: {r['results']!r} after {after}")
         if not w.lost:
+            # the server closes the connection exactly when a non-persistent request has been answered
+            should_close = any(w.finished[k] and not persistent(requests[k]) for k in range(len(w.handed)))
+            if tr.disconnecting and not should_close:
+                live = current()
+                if live is not None:
+                    V("connection-closed-while-request-being-answered",
+                      f"after {after}: loseConnection() with request {live} handed over and unanswered "
+                      f"(persistent flags {[persistent(r) for r in requests]}, finished {w.finished})")
+                V("connection-closed-on-persistent-connection", f"after {after}: finished {w.finished}")
+            if should_close and not tr.disconnecting:
+                V("connection-not-closed-after-non-persistent-response", f"after {after}")
             exp = expected_handed()
             if len(w.handed) != exp:
                 sig = "next-request-not-handed-over" if len(w.handed) < exp else "request-handed-over-early"
@@ -394,8 +418,6 @@ def run_case(ctx, case):
             # everything answered on a persistent connection: every request of the stream was handed over
             if len(w.handed) != N:
                 V("next-request-not-handed-over", f"quiescent with {len(w.handed)}/{N} handed over")
-        if any(not persistent(requests[k]) and w.finished[k] for k in range(len(w.handed))) and not tr.disconnecting:
-            V("connection-not-closed-after-non-persistent-response", "")
         wire_check(ctx, case, w, tr.value(), requests, V)
         lose()
         w.trace.append(("c-lose",))
@@ -430,6 +452,17 @@ def run_case(ctx, case):
         ctx.count("body over eager-read limit")
     if any(not persistent(r) for r in requests[:-1]):
         ctx.count("non-persistent request before the end")
+    # the class "a non-persistent request is taken from the pipeline buffer when its keep-alive
+    # predecessor finishes, and is itself answered by a later event"
+    for i, t in enumerate(w.trace):
+        if (t[0] == "handover" and t[1] > 0 and not persistent(requests[t[1]])
+                and any(u[0] in ("finish", "c-finish") and u[1] == t[1] for u in w.trace[i + 1:])):
+            ctx.count("non-persistent request after a keep-alive one, answered by a later event")
+            if any(u[0] in ("finish", "c-finish") and u[1] == t[1] - 1 for u in w.trace[i + 1:i + 2]):
+                ctx.count("... and dispatched from the buffer inside the predecessor's finish()")
+            break
+    if tr.dropped:
+        ctx.count("bytes written after loseConnection (dropped)")
 
 
 def dumps_requests(requests):
